@@ -9,6 +9,7 @@ import (
 	"context"
 	"encoding/json"
 	"fmt"
+	"math/big"
 	"reflect"
 	"time"
 
@@ -98,6 +99,21 @@ type c18Deep struct {
 	L []c18Q    `json:"l"`
 }
 
+// c18PtrRecv: its JSON form (a string) comes from a marshaler with a POINTER receiver
+type c18PtrRecv struct{ A, B int }
+
+func (p *c18PtrRecv) MarshalJSON() ([]byte, error) {
+	return json.Marshal(fmt.Sprintf("%d:%d", p.A, p.B))
+}
+func (p *c18PtrRecv) UnmarshalJSON(b []byte) error {
+	var s string
+	if err := json.Unmarshal(b, &s); err != nil {
+		return err
+	}
+	_, err := fmt.Sscanf(s, "%d:%d", &p.A, &p.B)
+	return err
+}
+
 // c18PtrDeep: a type first met below a pointer field that has NO omitempty, and used again later
 type c18PtrWrap struct {
 	In c18Leaf `json:"in"`
@@ -163,6 +179,14 @@ func c18FieldType(kind string) (reflect.Type, bool) {
 		return reflect.TypeOf((*string)(nil)), false
 	case "ptr-struct":
 		return reflect.TypeOf((*c18Inner)(nil)), false
+	case "ptr-bigint":
+		return reflect.TypeOf((*big.Int)(nil)), false
+	case "slice-ptr-bigint":
+		return reflect.TypeOf([]*big.Int(nil)), false
+	case "ptrrecv":
+		return reflect.TypeOf((*c18PtrRecv)(nil)), false
+	case "slice-ptrrecv":
+		return reflect.TypeOf([]c18PtrRecv(nil)), false
 	case "ptr-int":
 		return reflect.TypeOf((*int)(nil)), false
 	case "ptr-float64":
